@@ -83,7 +83,12 @@ theorem field_errors_under_key (env : Env) (node : Nat) (ty : String) (d : Nat) 
   split at he
   · exact hrep _ e (by simpa using he)
   · split at he
-    · exact hrep _ e (by simpa using he)
+    · split at he
+      · simp only [List.mem_append, List.mem_singleton] at he
+        rcases he with he | rfl
+        · exact hrep _ e he
+        · exact ⟨[], rfl⟩
+      · exact hrep _ e (by simpa using he)
     · split at he
       · simp only [List.mem_append, List.mem_singleton] at he
         rcases he with he | rfl
@@ -106,10 +111,19 @@ theorem field_errors_under_key (env : Env) (node : Nat) (ty : String) (d : Nat) 
 
 /-- **C01_typename.**  `__typename` yields `typeNameOf` of the node at the position's type. -/
 theorem typename_walked (env : Env) (node : Nat) (ty : String) (d : Nat)
-    (res : List (String × J)) (al : String) (args : List ArgVal) (sels : List Sel) :
-    (rSel env node ty d res (.field al "__typename" args [] sels)).1 =
+    (res : List (String × J)) (al : String) (sels : List Sel) :
+    (rSel env node ty d res (.field al "__typename" [] [] sels)).1 =
       setKey res (if al.isEmpty then "__typename" else al) (.str (typeNameOf env node ty)) := by
   simp [rSel, Skip.skipSel]
+
+/-- **C10 for the meta field.**  `__typename` declares no argument: with the check in place (`metaArgsUnchecked`
+off) one given to it is reported under the selection's key and nothing is written to the result. -/
+theorem typename_args_refused (env : Env) (h : env.cfg.metaArgsUnchecked = false) (node : Nat) (ty : String) (d : Nat)
+    (res : List (String × J)) (al : String) (a : ArgVal) (args : List ArgVal) (sels : List Sel) :
+    (rSel env node ty d res (.field al "__typename" (a :: args) [] sels)).1 = res ∧
+    (rSel env node ty d res (.field al "__typename" (a :: args) [] sels)).2.errs =
+      [⟨[.key (if al.isEmpty then "__typename" else al)], .unknownArg a.name⟩] := by
+  simp [rSel, Skip.skipSel, h]
 
 /-- as coded at first (D14): the name of the position's type, the interface under an interface-typed field -/
 theorem typeName_static (env : Env) (h : env.cfg.condByIdentity = true) (node : Nat) (ty : String) :
